@@ -69,7 +69,10 @@ func RunDirect(rng *lib.Rng, tier string, sum *lib.Summary) {
 	}
 	for i := 0; i < nScripts; i++ {
 		g := dmNewGen(lib.NewRng(rng.U64()))
-		sc := g.script()
+		sc := dmSafeGen(sum, g.script)
+		if sc == nil {
+			continue
+		}
 		d.generated++
 		ok := d.process(sc)
 		if !ok {
@@ -90,7 +93,10 @@ func RunDirect(rng *lib.Rng, tier string, sum *lib.Summary) {
 	}
 	for i := 0; i < nScen; i++ {
 		g := dmNewGen(lib.NewRng(rng.U64()))
-		sc := g.scenario()
+		sc := dmSafeGen(sum, g.scenario)
+		if sc == nil {
+			continue
+		}
 		d.generated++
 		ok := d.process(sc)
 		if !ok {
@@ -136,6 +142,17 @@ func RunDirect(rng *lib.Rng, tier string, sum *lib.Summary) {
 		"external_error_outcomes":   d.externals,
 		"external_error_samples":    d.externalSamples,
 	}
+}
+
+// dmSafeGen: a defect of the generator itself must not take the check down; it is counted instead.
+func dmSafeGen(sum *lib.Summary, f func() *dmScenario) (sc *dmScenario) {
+	defer func() {
+		if r := recover(); r != nil {
+			sum.Count("direct:generator-panic")
+			sc = nil
+		}
+	}()
+	return f()
 }
 
 func dmTopN(m map[string]int, n int) map[string]int {
